@@ -87,7 +87,7 @@ def check(ctx):
         # the real configuration (task objects recycled): every case in a forked child, failures attributed by differential re-run
         leg('recycle-on', ['--leg', 'gate', '--nt', '1:2', '--maxp', '2', '--win', '1,1;0,0', '--stride', '5', '--jobs', '8', '--isolate', '1', '--norecycle', '0', '--dup', '0'], 150)
         # tasks naming one tile twice (R,R / R,RW / RW,R)
-        leg('dup', ['--leg', 'gate', '--nt', '1:1', '--maxp', '2', '--win', '0,0;1,1', '--jobs', '3', '--isolate', '1', '--norecycle', '1', '--dup', '2'], 150)
+        leg('dup', ['--leg', 'gate', '--nt', '1:1', '--maxp', '2', '--win', '0,0;1,1', '--jobs', '3', '--isolate', '1', '--norecycle', '1', '--dup', '2', '--hang', '8'], 150)
     else:
         leg('inproc-1t', ['--leg', 'inproc', '--threads', '1', '--nt', '1:3', '--maxp', '3', '--alpha', 't', '--nest', '1', '--jobs', '12'], 300)
         leg('scheds-1t', ['--leg', 'scheds', '--threads', '1', '--exclude', 'll,llp,ip', '--nt', '1:3', '--maxp', '2', '--nest', '1', '--stride', '1'], 300)
@@ -97,7 +97,7 @@ def check(ctx):
         leg('mt-2t', ['--leg', 'mt', '--threads', '2', '--nt', '1:3', '--maxp', '2', '--win', '0,0', '--api', '3', '--spin', '500', '--stride', '2', '--jobs', '8'], 200)
         leg('mt-4t-scheds', ['--leg', 'mt', '--threads', '4', '--nt', '1:3', '--maxp', '2', '--win', '0,0', '--api', '1', '--spin', '500', '--stride', '24', '--allscheds', '1', '--exclude', 'll,llp,ip'], 300)
         leg('recycle-on', ['--leg', 'gate', '--nt', '1:2', '--maxp', '2', '--win', '1,1;2,1;0,0', '--jobs', '12', '--isolate', '1', '--norecycle', '0', '--dup', '0'], 240)
-        leg('dup', ['--leg', 'gate', '--nt', '1:2', '--maxp', '2', '--win', '0,0;1,1', '--jobs', '12', '--isolate', '1', '--norecycle', '1', '--dup', '2'], 200)
+        leg('dup', ['--leg', 'gate', '--nt', '1:2', '--maxp', '2', '--win', '0,0;1,1', '--jobs', '12', '--isolate', '1', '--norecycle', '1', '--dup', '2', '--hang', '8'], 600)
     if not os.environ.get('C03_SKIP_FINDINGS'):
         run_findings(ctx, exe)
     return ctx.finish(RULE, ASSUME)
